@@ -57,19 +57,19 @@ type Data struct {
 
 // Value describes an attribute value.
 type Value struct {
-	Kind string   `json:"kind"`          // int8..uint64,float32,float64,string,[]int32,[]int64,[]float32,[]float64, or bad kinds
-	I    []int64  `json:"i,omitempty"`   // integer payload (bit patterns for unsigned)
-	F    []uint64 `json:"f,omitempty"`   // float payload as bit patterns (float32 in low 32 bits)
-	S    string   `json:"s,omitempty"`   // string payload
-	N    int      `json:"n,omitempty"`   // informational length
+	Kind string   `json:"kind"`        // int8..uint64,float32,float64,string,[]int32,[]int64,[]float32,[]float64, or bad kinds
+	I    []int64  `json:"i,omitempty"` // integer payload (bit patterns for unsigned)
+	F    []uint64 `json:"f,omitempty"` // float payload as bit patterns (float32 in low 32 bits)
+	S    string   `json:"s,omitempty"` // string payload
+	N    int      `json:"n,omitempty"` // informational length
 }
 
 // Op is one operation of a trace.
 type Op struct {
 	Op      string   `json:"op"`
-	Path    string   `json:"path,omitempty"`   // object path (dataset, group, link)
-	Name    string   `json:"name,omitempty"`   // attribute name
-	DType   string   `json:"dtype,omitempty"`  // hdf5.Datatype constant name
+	Path    string   `json:"path,omitempty"`  // object path (dataset, group, link)
+	Name    string   `json:"name,omitempty"`  // attribute name
+	DType   string   `json:"dtype,omitempty"` // hdf5.Datatype constant name
 	Dims    []uint64 `json:"dims,omitempty"`
 	Chunk   []uint64 `json:"chunk,omitempty"`
 	MaxDims []uint64 `json:"maxdims,omitempty"`
@@ -83,15 +83,15 @@ type Op struct {
 	Fields  []Field  `json:"fields,omitempty"` // compound
 	Data    *Data    `json:"data,omitempty"`
 	Value   *Value   `json:"value,omitempty"`
-	Target  string   `json:"target,omitempty"`  // link target / external object path
-	File    string   `json:"file,omitempty"`    // external link file
-	Links   []Link   `json:"links,omitempty"`   // dense group / group with links
-	Mode    string   `json:"mode,omitempty"`    // restart: open|open_for_write ; delete mode etc.
-	N       int      `json:"n,omitempty"`       // repeat count (close_file xN) or generic integer
+	Target  string   `json:"target,omitempty"` // link target / external object path
+	File    string   `json:"file,omitempty"`   // external link file
+	Links   []Link   `json:"links,omitempty"`  // dense group / group with links
+	Mode    string   `json:"mode,omitempty"`   // restart: open|open_for_write ; delete mode etc.
+	N       int      `json:"n,omitempty"`      // repeat count (close_file xN) or generic integer
 	Lazy    *LazyCfg `json:"lazy,omitempty"`
 	Incr    *IncrCfg `json:"incr,omitempty"`
-	Bad     string   `json:"bad,omitempty"`     // why the generator thinks this call is invalid (informational)
-	Must    string   `json:"must,omitempty"`    // "error" or "ok": outcome the PROPERTY demands (C03/C13 only)
+	Bad     string   `json:"bad,omitempty"`  // why the generator thinks this call is invalid (informational)
+	Must    string   `json:"must,omitempty"` // "error" or "ok": outcome the PROPERTY demands (C03/C13 only)
 	// E3/E4 fields
 	Key   string `json:"key,omitempty"`
 	Val   uint64 `json:"val,omitempty"`
